@@ -54,6 +54,7 @@ class Ctx:
         self.coverage_actions = {}
         self.exhaustive = False
         self.checker_cmds = []
+        self.drift = {}            # trace module -> [(event id, what differs from the faithful model)]  (notes, never verdicts)
 
     # ------------------------------------------------------------------ model checking
     def mc(self, module, cfg_text, name=None, workers=None, timeout=1500, coverage=True, expect_actions=(),
@@ -146,6 +147,8 @@ class Ctx:
                     if v[1] not in got:       # TLC may evaluate an action (and its PrintT) more than once
                         verdicts[v[1]] = (v[2], v[3], v[4] if len(v) > 4 else None)
                     got.add(v[1])
+                elif isinstance(v, list) and len(v) >= 3 and v[0] == "D":
+                    self.drift.setdefault(module, []).append((v[1], v[2]))
             if got != {e["id"] for e in sh}:
                 raise MachineryError("trace validation of %s incomplete: %d of %d verdicts\n%s" %
                                      (p, len(got), len(sh), r.out[-3000:]))
